@@ -595,6 +595,10 @@ impl Engine for C03 {
             units.push(UnitSpec { id, name: format!("boundary:{b}"), isolated: false, exhaustive: true });
             id += 1;
         }
+        for part in 0..8 {
+            units.push(UnitSpec { id, name: format!("fields:{part}"), isolated: false, exhaustive: true });
+            id += 1;
+        }
         // two-fault enumeration for the short base documents
         let max2 = self.max_len_two_faults();
         for (name, _, _, text) in self.base_docs() {
@@ -614,6 +618,31 @@ impl Engine for C03 {
         }
         if unit.name == "ladder" {
             return Box::new(self.ladder().into_iter());
+        }
+        if let Some(part) = unit.name.strip_prefix("fields:") {
+            // every value of the two-digit fields of date / time / timestamp literals, as a scalar,
+            // as a grid cell (lazy rows) and as a Hayson value
+            let part: usize = part.parse().unwrap_or(0);
+            let uname = unit.name.clone();
+            return Box::new(gen_zinc::field_sweep().into_iter().enumerate().filter(move |(i, _)| i % 8 == part).flat_map(move |(_, lit)| {
+                let kind = if lit.contains('T') { "dateTime" } else if lit.contains(':') { "time" } else { "date" };
+                let (val, tz) = match lit.split_once(' ') {
+                    Some((v, z)) => (v.to_string(), Some(z.to_string())),
+                    None => (lit.clone(), None),
+                };
+                let json = match tz {
+                    Some(z) => format!("{{\"_kind\":\"{kind}\",\"val\":\"{val}\",\"tz\":\"{z}\"}}"),
+                    None => format!("{{\"_kind\":\"{kind}\",\"val\":\"{val}\"}}"),
+                };
+                let grid = format!("ver:\"3.0\"\na,b\n{lit},1\n2,{lit}\n");
+                let uname = uname.clone();
+                [("zinc-value", lit.clone().into_bytes()), ("zinc-rows", grid.into_bytes()), ("json-slice", json.into_bytes())].into_iter().map(move |(sink, doc)| {
+                    let mut c = Case::new("C03", sink, &doc);
+                    c.extra.insert("mutation".into(), "field-value".into());
+                    c.origin = format!("{uname} {lit}");
+                    c
+                })
+            }));
         }
         if let Some(b) = unit.name.strip_prefix("boundary:") {
             // every token kind straddling a buffer-size boundary, a little text after it; list and grid
